@@ -6,6 +6,7 @@ PowerT == <<1, 1, 1, 1>>
 LiveT == <<<<1, 2, 3, 4>>, <<2, 3, 4, 1>>, <<3, 4, 1, 2>>>>
 StaleT == <<2, 3, 4>>
 MCPower == [i \in 1..4 |-> PowerT[i]]
+MCNextPower == <<>>
 MCLive == [h \in 1..3 |-> [r \in 0..3 |-> LiveT[h][r + 1]]]
 MCStale == [h \in 1..3 |-> StaleT[h]]
 MCSits == {"NewHeight", "Propose", "ProposeProp", "Prevote", "Precommit", "PolkaUnknown", "CommitWait", "NewHeight2", "Round1", "FastSync"}
